@@ -254,7 +254,12 @@ func RunTimelyCaseBound(rng *rand.Rand, idx int, boundMult int) *TimelyResult {
 				}
 			}
 			for _, to := range all {
-				push(desEv{at: s.now + time.Duration(rng.Int63n(int64(maxLat)+1)), kind: "deliver", proc: to, msg: m})
+				lat := time.Duration(rng.Int63n(int64(maxLat) + 1))
+				if to == m.Src {
+					// a member's own message goes through a local channel, not the network
+					lat = time.Duration(rng.Int63n(int64(time.Millisecond)))
+				}
+				push(desEv{at: s.now + lat, kind: "deliver", proc: to, msg: m})
 			}
 		}
 	}
@@ -267,6 +272,9 @@ func RunTimelyCaseBound(rng *rand.Rand, idx int, boundMult int) *TimelyResult {
 
 		return true
 	}
+	// Shape bookkeeping for bound exceedances: when did each member time out of each round, and who
+	// accepted which round's PRE-PREPARE while still able to act on it.
+	noRestart := "" // first observed "accepted a justified PRE-PREPARE without restarting the round timer"
 	horizon := lastFault + 400*t1
 	for steps := 0; steps < 200000; steps++ {
 		// earliest armed timer
@@ -321,7 +329,15 @@ func RunTimelyCaseBound(rng *rand.Rand, idx int, boundMult int) *TimelyResult {
 				}
 				if p.Started && !p.Exited && !p.Crashed {
 					tr("deliver p%d <- %s", e.proc, e.msg)
+					timersBefore, uponBefore := p.timersCreated, len(s.Upon)
 					s.Deliver(e.proc, e.msg)
+					if e.msg.Typ == qbft.MsgPrePrepare && noRestart == "" && p.timersCreated == timersBefore {
+						for _, u := range s.Upon[uponBefore:] {
+							if u.Proc == e.proc && u.Rule == qbft.UponJustifiedPrePrepare {
+								noRestart = fmt.Sprintf("member %d accepted the PRE-PREPARE of round %d (from %d) at %v without restarting its round timer", e.proc, e.msg.Rnd, e.msg.Src, s.now)
+							}
+						}
+					}
 				}
 			}
 		}
@@ -333,8 +349,16 @@ func RunTimelyCaseBound(rng *rand.Rand, idx int, boundMult int) *TimelyResult {
 			for _, id := range all {
 				p := s.Procs[id]
 				if running(id) && p.Started && !p.Decided() && p.Round > res.RoundAtFault[id]+int64(n*boundMult) {
-					res.Findings = append(res.Findings, Finding{"C04", "qbft/termination/not-decided-within-one-leader-rotation/timer=" + meta.Timer,
-						fmt.Sprintf("running member %d entered round %d undecided; it was in round %d at the last fault (virtual time %v), n=%d", id, p.Round, res.RoundAtFault[id], lastFault, n)})
+					sig := "qbft/termination/not-decided-within-one-leader-rotation/timer=" + meta.Timer
+					what := fmt.Sprintf("running member %d entered round %d undecided; it was in round %d at the last fault (virtual time %v), n=%d", id, p.Round, res.RoundAtFault[id], lastFault, n)
+					// Shape: the known desynchronisation histories happen although every member restarts its round
+					// timer whenever it accepts a justified PRE-PREPARE (Algorithm 2:1). A history in which some
+					// member accepted a proposal WITHOUT restarting its timer is a different mechanism.
+					if noRestart != "" {
+						sig += "/a-member-accepted-a-proposal-without-restarting-its-round-timer"
+						what += "; " + noRestart
+					}
+					res.Findings = append(res.Findings, Finding{"C04", sig, what})
 					stop = true
 				}
 			}
